@@ -611,6 +611,12 @@ func (c *Component) tryRestoreSyncedMapping(sessionID string, swIfIndex uint32, 
 		true, true, func(err error) {
 			if err != nil {
 				c.logger.Error("restore synced mapping failed", "session", sessionID, "error", err)
+				// ReleaseBlocks frees every block of the subscriber, including
+				// ones indexed earlier (degraded restore of the same record):
+				// drop their reverse entries too, as handleSessionRelease does.
+				for _, m := range c.pools.GetMappings(poolName, mapping.InsideIP, 0) {
+					c.reverse.Remove(m.OutsideIP, m.PortBlockStart)
+				}
 				c.pools.ReleaseBlocks(poolName, mapping.InsideIP, 0)
 				done()
 				return
